@@ -339,6 +339,7 @@ func mutexLock(i *interpreter, fr *frame, fn *ssa.Function, args []value) value 
 		nilDeref()
 	}
 	reader := strings.Contains(fn.String(), "RLock")
+	i.maybePreempt(p)
 	for i.w.held[p] {
 		if i.w.heldBy[p] == i.curG {
 			if reader {
